@@ -3,7 +3,8 @@
    (un)packers); proofs: theories/UnionProofs.v.  Tie to /repo: behavioural correspondence
    on every run (harness/props/c11.py). *)
 From Coq Require Import List String ZArith Bool.
-From Verif Require Import UnionModel UnionProofs.
+From Verif Require Import UnionModel UnionProofs UnionDeep UnionDeepProofs UnionEmit K19Proofs.
+From VerifGen Require Import K19.
 Import ListNotations.
 Open Scope string_scope.
 Open Scope Z_scope.
@@ -164,6 +165,67 @@ Example C11_typevar_default_ignored :
   typevar_dec (fun k d => match k, d with KStr, UInt 1 => Some (UStr "1") | _, _ => None end)
               [MS KInt; MS KStr] (fun d => match d with UInt 1 => Some (UStr "1") | _ => None end) (UInt 1) = Some (UInt 1).
 Proof. reflexivity. Qed.
+
+(* ---------- union positions at any depth of the surrounding type ---------- *)
+(* cty: scalars, leaves, unions, Optional, List[T], Tuple[T, ...], Tuple[T1..Tn], Dict[str, T], nested at will.
+   ydec = generated unpacker (union positions: union_dec; containers: the comprehension / indexing
+   expressions); yref = the same plumbing with the property's ref_union at every union position. *)
+Definition C11_deep_decode_full : Prop := forall co t d, ydec co t d = yref co t d.
+
+(* ysafe: every union visited while decoding d (at the value it receives) satisfies none_safe and no_shadow *)
+Theorem C11_deep_decode_partial : forall co t d,
+  ycoh co t d -> ysafe co t d = true -> ydec co t d = yref co t d.
+Proof. exact deep_partial. Qed.
+Print Assumptions C11_deep_decode_partial.
+
+(* List[Union[date, str]] <- ["2020-01-01"]: the shadowing deviation occurs below a container *)
+Theorem C11_deep_decode_refuted : ~ C11_deep_decode_full.
+Proof.
+  intro H. specialize (H w_co (YList (YU [(0%nat, YLeaf w_date); (1%nat, YS KStr)])) (UList [UStr "2020-01-01"])).
+  discriminate H.
+Qed.
+Print Assumptions C11_deep_decode_refuted.
+
+Example C11_deep_nonvacuous :
+  let u := YU [(0%nat, YS KInt); (1%nat, YLeaf w_date); (2%nat, YS KStr)] in
+  let t := YDict (YTupF [YList u; YOpt (YTupV u)]) in
+  let d := UDict [(UStr "k", UList [UList [UInt 1; UStr "x"; UStr "1"]; UTuple [UStr "y"]])] in
+  ycoh w_co t d /\ ysafe w_co t d = true /\
+  ydec w_co t d = Some (UDict [(UStr "k", UTuple [UList [UInt 1; UStr "x"; UStr "1"]; UTuple [UStr "y"]])]) /\
+  ysafe w_co t (UDict [(UStr "k", UList [UList [UStr "2020-01-01"]; UNone])]) = false /\
+  ydec w_co t (UDict [(UStr "k", UList [UList [UObj "set" "{1}"]; UNone])]) = None.
+Proof.
+  cbv zeta. split; [|repeat split; reflexivity].
+  assert (C: forall d, coherent [MS KInt; MN 1 w_date; MS KStr] d).
+  { intro d. apply nodup_coherent. simpl. repeat constructor; simpl; intuition discriminate. }
+  simpl. unfold dict_All, seq_All. intros kvs E; inversion E; subst; clear E. repeat constructor; simpl.
+  - intros x E; inversion E; subst; clear E. intros l E; inversion E; subst; clear E.
+    repeat constructor; simpl; auto; apply C.
+  - intros x E; inversion E; subst; clear E. intros _ l E; inversion E; subst; clear E.
+    repeat constructor; simpl; auto; apply C.
+Qed.
+
+(* ---------- K19: the translated emission loop of UnionUnpackerBuilder._add_body ---------- *)
+(* K19.emit is re-translated from /repo on every run; the method text it describes computes union_dec *)
+Theorem C11_union_emit_correct : forall co ms d, Forall wf_mspec ms ->
+  run_lines co (emit ms) d = union_dec co (map to_member ms) d.
+Proof. exact emit_correct. Qed.
+Print Assumptions C11_union_emit_correct.
+
+(* hence the code the current source emits follows the reference on the stated domain *)
+Theorem C11_union_emitted_partial : forall co ms d, Forall wf_mspec ms ->
+  coherent (map to_member ms) d -> none_safe (map to_member ms) d = true -> no_shadow (map to_member ms) d = true ->
+  run_lines co (emit ms) d = ref_union co (map to_member ms) d.
+Proof. intros. rewrite emit_correct by assumption. apply union_decode_partial; assumption. Qed.
+Print Assumptions C11_union_emitted_partial.
+
+Example C11_emit_nonvacuous :
+  let ms := [SM KInt; NM 0 false w_date; SM KNone; NM 0 false w_date; NM 1 true Some] in
+  Forall wf_mspec ms /\
+  emit ms = [LValueType; LPlain (BIfRet (CVt (SM KInt))); LTry [BRet (NM 0 false w_date)]; LPlain (BIfRet (CVt (SM KNone)));
+             LPlain (BRet (NM 1 true Some)); LTryRet (SM KInt); LTryRet (SM KNone); LRaise] /\
+  run_lines w_co (emit ms) (UStr "2020-01-01") = Some (UObj "date" "datetime.date(2020, 1, 1)").
+Proof. cbv zeta. split; [repeat constructor; simpl; auto | split; reflexivity]. Qed.
 
 (* ---------- Optional ---------- *)
 
